@@ -222,3 +222,87 @@ Definition pcase_agrees (c : pcase) : bool :=
   let '(n, p, obs) := c in
   let '(_, outs) := run18 gmat xdata x_gid (x_gmul n) (x_ginv n) (x_act n) (fresh_mst, fun _ => None) p in
   all2 (xout_eqb n) outs obs.
+
+(* ---------------------------------------------------------------------------------------------- *)
+(*  Part D - savedir / loaddir sessions (core/saveable.py)                                         *)
+(* ---------------------------------------------------------------------------------------------- *)
+(* A directory holds one parcel per savedir call (unique file name) and the table _hashes_.qrp
+   tag -> file, a Python dict: insertion ordered, assignment to an existing key keeps its position.
+   Abstracting the file names, a directory is the ordered table tag -> saved object.  savedir into a
+   directory that does not exist starts from the empty table (self.hashes = {}), into an existing one
+   from the table read from the directory. *)
+Inductive tagv := TInt (z : Z) | TStr (n : nat).
+Definition tag_eqb (a b : tagv) : bool :=
+  match a, b with TInt x, TInt y => Z.eqb x y | TStr x, TStr y => Nat.eqb x y | _, _ => false end.
+(* the tag savedir chooses when none is given: the pinned code takes the LAST key of the table + 1
+   (TypeError when that key is a string); the repaired code 1 + the largest integer key, 1 if none *)
+Inductive tvariant := TagPinned | TagRepaired.
+
+Section Dir.
+  Variable O : Type.                       (* what a parcel holds *)
+  Definition table := list (tagv * O).
+  Fixpoint tset (t : table) (k : tagv) (x : O) : table :=
+    match t with
+    | [] => [(k, x)]
+    | (k', y) :: t' => if tag_eqb k' k then (k', x) :: t' else (k', y) :: tset t' k x
+    end.
+  Fixpoint tget (t : table) (k : tagv) : option O :=
+    match t with [] => None | (k', y) :: t' => if tag_eqb k' k then Some y else tget t' k end.
+  Definition int_keys (t : table) : list Z :=
+    concat (map (fun e => match fst e with TInt z => [z] | TStr _ => [] end) t).
+  (* None: TypeError *)
+  Definition auto_tag (v : tvariant) (t : table) : option tagv :=
+    match v with
+    | TagPinned =>        (* list(self.hashes.keys())[-1] + 1, or 1 for an empty table *)
+        match last (map (fun e => Some (fst e)) t) None with
+        | None => Some (TInt 1)
+        | Some (TInt z) => Some (TInt (z + 1))
+        | Some (TStr _) => None
+        end
+    | TagRepaired =>      (* max(integer keys) + 1, or 1 if there is none *)
+        Some (TInt (match int_keys t with [] => 1 | z :: zs => fold_left Z.max zs z + 1 end))
+    end.
+
+  Definition dirs := nat -> option table.
+  Inductive dop := SaveDir (d : nat) (tag : option tagv) (x : O) | LoadDir (d : nat).
+  Inductive dout := DSaved (k : tagv) | DLoaded (t : table) | DErr.
+
+  Definition savedir (v : tvariant) (s : dirs) (d : nat) (tag : option tagv) (x : O) : dirs * dout :=
+    let t := match s d with Some t => t | None => [] end in
+    match (match tag with Some k => Some k | None => auto_tag v t end) with
+    | Some k => (fun d' => if Nat.eqb d' d then Some (tset t k x) else s d', DSaved k)
+    | None => (s, DErr)          (* raised before anything was written (the directory existed) *)
+    end.
+  Definition dstep (v : tvariant) (s : dirs) (o : dop) : dirs * dout :=
+    match o with
+    | SaveDir d tag x => savedir v s d tag x
+    | LoadDir d => (s, match s d with Some t => DLoaded t | None => DErr end)
+    end.
+  Fixpoint drun (v : tvariant) (s : dirs) (h : list dop) : dirs * list dout :=
+    match h with
+    | [] => (s, [])
+    | o :: h' => let '(s1, r) := dstep v s o in let '(s2, rs) := drun v s1 h' in (s2, r :: rs)
+    end.
+  Definition target (o : dop) : nat := match o with SaveDir d _ _ => d | LoadDir d => d end.
+  Definition no_dirs : dirs := fun _ => None.
+End Dir.
+Arguments SaveDir {O}. Arguments LoadDir {O}. Arguments DSaved {O}. Arguments DLoaded {O}. Arguments DErr {O}.
+
+(* correspondence: objects are identified by a number *)
+Definition tab_eqb (a b : table nat) : bool :=
+  (fix go (a b : table nat) : bool :=
+     match a, b with
+     | [], [] => true
+     | (k, x) :: a', (k', y) :: b' => tag_eqb k k' && Nat.eqb x y && go a' b'
+     | _, _ => false
+     end) a b.
+Definition dout_eqb (a b : dout nat) : bool :=
+  match a, b with
+  | DSaved k, DSaved k' => tag_eqb k k'
+  | DLoaded t, DLoaded t' => tab_eqb t t'
+  | DErr, DErr => true
+  | _, _ => false
+  end.
+Definition dcase := (list (dop nat) * list (dout nat))%type.
+Definition dcase_agrees (c : dcase) : bool := all2 dout_eqb (snd (drun nat TagRepaired (no_dirs nat) (fst c))) (snd c).
+Definition dcase_pinned_agrees (c : dcase) : bool := all2 dout_eqb (snd (drun nat TagPinned (no_dirs nat) (fst c))) (snd c).
